@@ -66,6 +66,7 @@ type pendingInit struct {
 type iterState struct {
 	rng     *ssa.Range
 	visited *T
+	pos     *T // string ranges: byte offset of the next rune (nil for map ranges)
 }
 
 func (st *State) top() *Frame { return st.frames[len(st.frames)-1] }
@@ -1335,6 +1336,12 @@ func (x *Exec) havocLoop(st *State, fr *Frame, li *loopInfo) {
 		st.cellSet(c, x.freshVal(st, c.typ, "lh!"+c.name))
 	}
 	for i := range st.iters {
+		if st.iters[i].pos != nil {
+			p := Fresh("rng!pos", SInt)
+			st.assume(Ge(p, IntC(0)))
+			st.iters[i].pos = p
+			continue
+		}
 		st.iters[i].visited = Fresh("visited", st.iters[i].visited.Sort)
 	}
 	if os.Getenv("TWV_DEBUG_LOOP") != "" {
